@@ -56,16 +56,17 @@ Proof. apply order_ok_unique. apply C09_job_order_obligations. Qed.
 
 (* The full-strength theorem for the mutation order and constants found in the source. *)
 Theorem C09_deployed_crash_recover :
-  forall (compact : bool -> list row -> list row),
-  (forall b l, rel b l (compact b l)) ->
+  forall (compact : dmode -> list row -> list row),
+  (forall b l, rel b l (compact (mode_of_bool b) l)) ->
   forall cfg (h : list (bool * list outcome)) elig s0,
   NoDup (keys (files s0)) -> mans s0 = [] -> oks (files s0) ->
+  (forall p f, In (p, f) (files s0) -> f_part f = false) ->
   let life := fold_left (fun s eo => cycle compact job_run_order code_params cfg (fst eo) (snd eo) s) h s0 in
   let s := cycle compact job_run_order code_params cfg elig [] life in
   rel (any_meta (files s0)) (visible s0) (visible s) /\ mans s = [] /\ oks (files s).
 Proof.
-  intros compact Hc cfg h elig s0 H1 H2 H3. rewrite deployed_order.
-  destruct (crash_recover compact Hc code_params cfg h elig s0 H1 H2 H3) as [A [B [C _]]].
+  intros compact Hc cfg h elig s0 H1 H2 H3 H4. rewrite deployed_order.
+  destruct (crash_recover compact Hc code_params cfg h elig s0 H1 H2 H3 H4) as [A [B [C _]]].
   split; [exact A|split; [exact B|exact C]].
 Qed.
 Print Assumptions C09_deployed_crash_recover.
